@@ -94,6 +94,24 @@ paths:
       requestBody: {required: false, content: {application/json: {schema: {$ref: "#/components/schemas/Item"}}}}
       responses:
         "200": {description: ok}` + def + `
+  /form:
+    post:
+      operationId: postForm
+      parameters:
+        - {name: n, in: query, required: false, schema: {type: integer}}
+        - {name: ck, in: cookie, required: false, schema: {type: integer}}
+      requestBody:
+        required: true
+        content:
+          application/x-www-form-urlencoded:
+            schema:
+              type: object
+              required: [user]
+              properties:
+                user: {type: string, minLength: 1, maxLength: 8}
+                age: {type: integer, minimum: 0}
+      responses:
+        "200": {description: ok}` + def + `
   /plain:
     get:
       operationId: getPlain
@@ -214,6 +232,37 @@ func matrixRequests() []Req {
 	add(o("body", "", `{"name":"ab"`, "truncated optional body without a content type"))
 	add(o("body", "", "garbage", "garbage optional body without a content type"))
 	add(o("unclassified", "text/plain", "", "wrong content type with an empty optional body"))
+	// a scalar given twice is not a value of the parameter: refused at parameter decoding
+	add(g("param", "/items/5", "q=ab&q=cd", hdr("X-Key", "k"), "required scalar query parameter given twice"))
+	add(g("param", "/items/5", "q=ab&q=ab", hdr("X-Key", "k"), "required scalar query parameter given twice, same text"))
+	// postForm: urlencoded body, optional query and cookie parameters
+	f := func(cls, q, body, note string) Req {
+		return Req{Cls: cls, Params: true, BodyKind: "required", Method: "POST", Path: "/form", RawQuery: q, Header: hdr("Content-Type", "application/x-www-form-urlencoded"), Payload: js(body), Note: note}
+	}
+	add(f("valid", "", "user=alice&age=3", "valid form"))
+	add(f("valid", "n=4", "user=a+b%21", "valid form with escapes and an optional query parameter"))
+	add(f("body", "", "age=3", "form without its required field"))
+	add(f("body", "", "user=alice&age=x", "form with an ill-typed field"))
+	add(f("body", "", "user=&age=3", "form field shorter than minLength"))
+	add(f("body", "", "user=alice&user=root", "scalar form field given twice"))
+	add(f("body", "", "user=al%zzice", "form with a malformed escape in a required field"))
+	add(f("param", "n=4&n=5", "user=alice", "optional scalar query parameter given twice"))
+	add(f("param", "n=x", "user=alice", "ill-typed optional query parameter"))
+	r = f("valid", "", "user=alice&age=3", "valid form of unknown length (chunked)")
+	r.NoLength = true
+	add(r)
+	r = f("body", "", "age=3", "invalid form of unknown length (chunked)")
+	r.NoLength = true
+	add(r)
+	r = f("param", "", "user=alice", "ill-typed cookie parameter")
+	r.Header["Cookie"] = []string{"ck=zz"}
+	add(r)
+	r = f("valid", "", "user=alice", "valid cookie parameter")
+	r.Header["Cookie"] = []string{"ck=7"}
+	add(r)
+	r = p("valid", "application/json", validItem, "valid JSON body of unknown length (chunked)")
+	r.NoLength = true
+	add(r)
 	// getPlain
 	add(Req{Cls: "valid", BodyKind: "none", Method: "GET", Path: "/plain", Header: hdr(), Note: "no stages"})
 	add(Req{Cls: "wrong_method", BodyKind: "none", Method: "POST", Path: "/plain", Header: hdr(), Note: "undefined method"})
